@@ -507,6 +507,22 @@ def run_xdev(desc):
                     f'update across an allowed/ignored boundary: '
                     f'{sc.problems[:4]!r}', sig='foreign-mishandled:update',
                     classes=classes)
+        # the same when the top-level Manifest is only being created
+        os.unlink(os.path.join(root, 'Manifest'))
+        oc = updgen.run_update(
+            root, o, create=True, loader_kwargs=lk,
+            extra_cli=([] if desc['allow_xdev'] else ['-x']))
+        if not desc['allow_xdev']:
+            if oc.kind != 'xdev':
+                return violation(
+                    f'create: {desc["kind"]} at {boundary!r} is on another '
+                    f'filesystem and crossing is disallowed, but creating '
+                    f'the Manifest tree gave {oc.describe()}',
+                    sig=f'xdev-not-raised:create:{desc["kind"]}:{oc.kind}',
+                    classes=classes)
+        elif oc.kind != 'return':
+            return violation(f'create: unexpected {oc.describe()}',
+                             sig='unexpected:create', classes=classes)
         return ok(nontrivial=True, classes=classes)
     finally:
         mountns.umount_all_under(base)
